@@ -1,10 +1,76 @@
 /-
-  Driver ops for C12.
+  Driver ops for C12 (scalar / extension text forms).
+    parse-decimal | parse-duration | parse-datetime | parse-long   {"s": hex}        → `ok <int>` | `err`
+    parse-ip                                                        {"s": hex}        → `ok <v6> <addr> <bits>` | `err`
+    print-decimal | print-duration | print-datetime | print-long    {"raw": "<int>"}  → hex of the printed text
+    print-ip                                                        {"fam": 4|6, "addr": "<nat>", "bits": n} → hex of the printed text
+    new-decimal                                                     {"i": "<int>", "exp": "<int>"} → `ok <raw>` | `err`
+    civil                                                           {"days": "<int>"} → `y m d`   (civilFromDays)
+    days                                                            {"y","m","d"}     → `<int>`   (daysFromCivil)
+  Inputs that are not valid UTF-8 are outside the model (`skip invalid-utf8`).
 -/
 import CedarGo.Driver.Ops.Core
 namespace CedarGo.Driver
-open Lean CedarGo
+open Lean CedarGo CedarGo.Scalars
 
-def c12Ops : List (String × Handler) := []
+def showIntRes (r : Except Err Int) : String :=
+  match r with
+  | .ok v => s!"ok {v}"
+  | .error _ => "err"
+
+def opParseWith (f : String → Except Err Int) : Handler := fun _ j => do
+  let s ← jHex (← field j "s")
+  .ok (showIntRes (f s))
+
+def opParseLong : Handler := fun _ j => do
+  let s ← jHex (← field j "s")
+  .ok (match parseLong s with | some v => s!"ok {v}" | none => "err")
+
+def opParseIP : Handler := fun _ j => do
+  let s ← jHex (← field j "s")
+  .ok (match parseIP s with
+       | .ok a => s!"ok {if a.v6 then 6 else 4} {a.addr} {a.bits}"
+       | .error _ => "err")
+
+def opPrintWith (f : Int → String) : Handler := fun _ j => do
+  let v ← jInt (← field j "raw")
+  .ok (hex (f v))
+
+def opPrintIP : Handler := fun _ j => do
+  let v6 ← jInt (← field j "fam")
+  let a ← jNat (← field j "addr")
+  let b ← jNat (← field j "bits")
+  .ok (hex (printIP ⟨v6 == 6, a, b⟩))
+
+def opNewDecimal : Handler := fun _ j => do
+  let i ← jInt (← field j "i")
+  let e ← jInt (← field j "exp")
+  .ok (showIntRes (newDecimalExp i e))
+
+def opCivil : Handler := fun _ j => do
+  let z ← jInt (← field j "days")
+  let (y, m, d) := civilFromDays z
+  .ok s!"{y} {m} {d}"
+
+def opDays : Handler := fun _ j => do
+  let y ← jInt (← field j "y")
+  let m ← jNat (← field j "m")
+  let d ← jNat (← field j "d")
+  .ok s!"{daysFromCivil y m d}"
+
+def c12Ops : List (String × Handler) := [
+  ("parse-decimal", opParseWith parseDecimal),
+  ("parse-duration", opParseWith parseDuration),
+  ("parse-datetime", opParseWith parseDatetime),
+  ("parse-long", opParseLong),
+  ("parse-ip", opParseIP),
+  ("print-decimal", opPrintWith printDecimal),
+  ("print-duration", opPrintWith printDuration),
+  ("print-datetime", opPrintWith printDatetime),
+  ("print-long", opPrintWith printLong),
+  ("print-ip", opPrintIP),
+  ("new-decimal", opNewDecimal),
+  ("civil", opCivil),
+  ("days", opDays)]
 
 end CedarGo.Driver
